@@ -474,6 +474,7 @@ func sweep(args []string) *Result {
 			res.sample(map[string]any{"project": s.name, "accepted": true})
 		}
 		if checks["c04"] {
+			probeSrc = &s
 			if sig, what := checkC04(&j); sig != "" {
 				res.mismatch(sig, s.name+": "+what, replay)
 			}
@@ -500,31 +501,52 @@ func minInt(a, b int) int {
 // failingComponent names the part of the catalog whose serialisation fails (for signatures):
 // ":pathVariables:example-invalid" is the shape of the recorded finding C04-path-body-unchecked
 // (a Path body whose example contradicts its rule), anything else is reported as it is.
+// The serialisation error of a path-variable schema is raised by the FIRST marshal only (later calls find the schema
+// "compiled"), so the probe runs on a fresh build of the same source when the caller provides one (probeSrc).
+var probeSrc *projSrc
+
 func failingComponent(j *kit.JApi) string {
 	var out string
 	func() {
 		defer func() { recover() }()
+		if probeSrc != nil {
+			if j2, ok, _ := probeSrc.build(); ok {
+				j = &j2
+			}
+		}
+		// every interaction whose path variables alone do not serialise
+		var failing []*catalog.HTTPInteraction
+		notFound := false
 		_ = j.Catalog().Interactions.Each(func(_ catalog.InteractionID, v catalog.Interaction) error {
 			hi, ok := v.(*catalog.HTTPInteraction)
-			if !ok || hi.PathVariables == nil || out != "" {
+			if !ok || hi.PathVariables == nil {
 				return nil
 			}
 			if _, err := json.Marshal(hi.PathVariables); err != nil {
-				if strings.Contains(err.Error(), "not found") {
-					out = ":pathVariables:type-not-found"
-				} else {
-					out = ":pathVariables:example-invalid"
-				}
-				// only when everything else serialises
-				saved := hi.PathVariables
-				hi.PathVariables = nil
-				if _, err2 := j.Catalog().ToJson(); err2 != nil {
-					out = ""
-				}
-				hi.PathVariables = saved
+				failing = append(failing, hi)
+				notFound = notFound || strings.Contains(err.Error(), "not found")
 			}
 			return nil
 		})
+		if len(failing) == 0 {
+			return
+		}
+		// ... and only when everything else serialises
+		saved := make([]*catalog.PathVariables, len(failing))
+		for i, hi := range failing {
+			saved[i], hi.PathVariables = hi.PathVariables, nil
+		}
+		_, err2 := j.Catalog().ToJson()
+		for i, hi := range failing {
+			hi.PathVariables = saved[i]
+		}
+		if err2 == nil {
+			if notFound {
+				out = ":pathVariables:type-not-found"
+			} else {
+				out = ":pathVariables:example-invalid"
+			}
+		}
 	}()
 	return out
 }
